@@ -383,12 +383,16 @@ def r3_validator_consumers(ctx):
     cls = repo_cls(corpus)
     vi = corpus.method(cls, '_validate_init_settings')
     va = corpus.method(cls, '_validate_add_key_settings')
-    if vi is None or va is None:
-        raise AnalysisError('C17.R3: anchor function missing: Repository._validate_init_settings / _validate_add_key_settings')
+    if vi is None:
+        raise AnalysisError('C17.R3: anchor function missing: Repository._validate_init_settings')
+    if va is None:
+        # written out in add_key: the schema literals handed to _validate_settings there
+        va = corpus.func('repository', 'Repository.add_key')
     ctx.analysed(vi, va)
     allowed = []
     for f in (vi, va):
-        for d in ast.walk(f.node):
+        nodes = [f.node] if f.name.startswith('_validate') else [a for c in self_calls(f.node, {'_validate_settings'}) for a in c.args[:1]]
+        for d in [x for n_ in nodes for x in ast.walk(n_)]:
             if isinstance(d, ast.Dict):
                 allowed += [(f, k.value) for k in d.keys if isinstance(k, ast.Constant)]
             # dict.fromkeys(<table>, type): the keys of the table are allowed
